@@ -7,6 +7,7 @@ import (
 	"math/big"
 	"os"
 	"sort"
+	"sync"
 
 	eth2apiv1 "github.com/attestantio/go-eth2-client/api/v1"
 	"github.com/attestantio/go-eth2-client/spec/phase0"
@@ -49,40 +50,55 @@ func Network() networkconfig.NetworkConfig {
 	return n
 }
 
-// Store is a real Badger store (in memory, or on disk under /var/tmp) that survives "process deaths".
+// Store is a logical store on a real Badger database that survives "process deaths". In-memory
+// stores are namespaces of one process-wide in-memory Badger (opening one costs ~200 ms for its 64 MB
+// arena); an on-disk store is its own Badger under /var/tmp, closed and re-opened at every restart.
 type Store struct {
 	Raw  *kv.BadgerDB
+	ns   []byte
 	dir  string
 	disk bool
 }
 
+var (
+	sharedMu  sync.Mutex
+	sharedDB  *kv.BadgerDB
+	sharedSeq int
+)
+
 func OpenStore(disk bool) (*Store, error) {
 	s := &Store{disk: disk}
-	if disk {
-		d, err := os.MkdirTemp("/var/tmp", "verif-regsim-")
-		if err != nil {
-			return nil, err
+	if !disk {
+		sharedMu.Lock()
+		defer sharedMu.Unlock()
+		if sharedDB == nil {
+			db, err := kv.NewInMemory(zap.NewNop(), basedb.Options{})
+			if err != nil {
+				return nil, err
+			}
+			sharedDB = db
 		}
-		s.dir = d
+		sharedSeq++
+		s.Raw = sharedDB
+		s.ns = []byte(fmt.Sprintf("store-%08d/", sharedSeq))
+		return s, nil
 	}
-	if err := s.open(); err != nil {
+	d, err := os.MkdirTemp("/var/tmp", "verif-regsim-")
+	if err != nil {
+		return nil, err
+	}
+	s.dir = d
+	if s.Raw, err = kv.New(zap.NewNop(), basedb.Options{Path: s.dir}); err != nil {
 		s.Destroy()
 		return nil, err
 	}
 	return s, nil
 }
 
-func (s *Store) open() error {
-	var err error
-	if s.disk {
-		s.Raw, err = kv.New(zap.NewNop(), basedb.Options{Path: s.dir})
-	} else {
-		s.Raw, err = kv.NewInMemory(zap.NewNop(), basedb.Options{})
-	}
-	return err
-}
+// View is the database as a process sees it (fault points go to in; nil = no faults).
+func (s *Store) View(in *faultdb.Injector) *faultdb.DB { return faultdb.WrapNS(s.Raw, in, s.ns) }
 
-// Reopen closes and re-opens an on-disk store (what survives a real process death); a no-op for the
+// Reopen closes and re-opens an on-disk store (what survives a real process death); a no-op for an
 // in-memory store, whose handle is the surviving database.
 func (s *Store) Reopen() error {
 	if !s.disk {
@@ -91,17 +107,23 @@ func (s *Store) Reopen() error {
 	if err := s.Raw.Close(); err != nil {
 		return err
 	}
-	return s.open()
+	var err error
+	s.Raw, err = kv.New(zap.NewNop(), basedb.Options{Path: s.dir})
+	return err
 }
 
+// Destroy releases the store (deletes the namespace's keys / the directory).
 func (s *Store) Destroy() {
-	if s.Raw != nil {
+	if s.Raw == nil {
+		return
+	}
+	if s.disk {
 		_ = s.Raw.Close()
-		s.Raw = nil
-	}
-	if s.dir != "" {
 		_ = os.RemoveAll(s.dir)
+	} else {
+		_, _ = s.Raw.DeletePrefix(s.ns)
 	}
+	s.Raw = nil
 }
 
 // Recorder is the task executor: it writes down what the handler asks the validator controller to do.
@@ -190,7 +212,7 @@ func Boot(st *Store, in *faultdb.Injector) (*Env, error) {
 		in = faultdb.NewInjector()
 	}
 	logger := zap.NewNop()
-	e := &Env{Store: st, In: in, DB: faultdb.Wrap(st.Raw, in), Rec: &Recorder{}}
+	e := &Env{Store: st, In: in, DB: st.View(in), Rec: &Recorder{}}
 	ns, err := operatorstorage.NewNodeStorage(logger, e.DB)
 	if err != nil {
 		return nil, fmt.Errorf("node storage: %w", err)
@@ -349,7 +371,7 @@ func (e *Env) Snapshot() (Snapshot, error) { return SnapshotOf(e.NS, e.ODS.GetOp
 // FreshSnapshot re-creates node storage (and with it the shares storage) on the same database, the
 // way a restart does, and reads the state from there.
 func FreshSnapshot(st *Store) (Snapshot, error) {
-	ns, err := operatorstorage.NewNodeStorage(zap.NewNop(), st.Raw)
+	ns, err := operatorstorage.NewNodeStorage(zap.NewNop(), st.View(nil))
 	if err != nil {
 		return Snapshot{}, err
 	}
@@ -365,7 +387,7 @@ type KMSnapshot struct {
 
 func KMSnapshotOf(st *Store) (KMSnapshot, error) {
 	var s KMSnapshot
-	km, err := ekm.NewETHKeyManagerSigner(zap.NewNop(), st.Raw, Network(), true, "")
+	km, err := ekm.NewETHKeyManagerSigner(zap.NewNop(), st.View(nil), Network(), true, "")
 	if err != nil {
 		return s, err
 	}
